@@ -122,6 +122,37 @@ def run_case(ctx):
                     raise Violation(sig, f"{desc} returned {type(o.value).__name__}"
                                     f"{getattr(o.value, 'shape', '')} instead of raising")
             keyparts.append(desc)
+    # one selector OBJECT (list or numpy array, possibly with from-the-end indices) used on two
+    # plotfiles with different field counts in turn: every use must return the fields it designates
+    # in THAT plotfile (or be refused) - a reader that rewrites the caller's selector breaks this
+    if src.flag("reuse", 3):
+        m2 = world.gen_world(src, tag="w2", max_levels=1, max_boxes=4)
+        path2 = common.materialise(ctx, m2, name="plt00200")[0]
+        o2 = common.open_cooker(ctx, path2)
+        if o2.ok:
+            nmin = min(nf, len(m2.fields))
+            k = src.draw("reuse.k", 1, min(3, nmin))
+            neg = sorted(-1 - v for v in src.subset("reuse.set", nmin, min_size=k)[:k])
+            if src.flag("reuse.mixed") and neg[0] < -1:
+                neg = [0] + [v for v in neg if nmin + v > 0] if all(nmin + v > 0 for v in neg) else neg
+            as_array = bool(src.draw("reuse.array", 0, 1))
+            sel = np.array(neg) if as_array else list(neg)
+            desc0 = f"{'np.array' if as_array else 'list'}({neg})"
+            for which, (pk, mm) in enumerate(((pck, m), (o2.value, m2), (pck, m))):
+                nfx = len(mm.fields)
+                idx = [v + nfx if v < 0 else v for v in neg]
+                if idx != sorted(idx) or len(set(idx)) != len(idx):
+                    continue
+                o = run_tool(ctx, lambda: pk[sel][0][0], label=f"shared selector {desc0} on plotfile {'ABA'[which]} ({nfx} fields)")
+                if not o.ok:
+                    continue
+                want = mm.data[0][0][..., idx]
+                if not isinstance(o.value, np.ndarray) or not world.same_bits(o.value, want):
+                    raise Violation({"property": ID, "oracle": "shared-selector", "use": which, "array": as_array},
+                                    f"selector {desc0} used for the {['first', 'second', 'third'][which]} time, on a "
+                                    f"plotfile with {nfx} fields, returned shape {getattr(o.value, 'shape', None)} / other "
+                                    f"data than fields {idx}; the selector object now reads {sel!r}")
+            keyparts.append(("reuse", desc0, len(m2.fields)))
     keyparts.append(sorted(map(str, ctx.sigs)))
     ctx.case_key = common.key_of(keyparts)
     ctx.sample = {"world": m.summary(), "limit": limit, "selections": ctx.describe["operations"][1:],
